@@ -107,7 +107,37 @@ def fold_replies(L, repo):
             for x in sent:
                 L.ob("C05.R2", FC, fn, "%s: the reply goes to the sender's address" % title, PEER,
                      x[1] if len(x) > 1 else None, len(x) > 1 and tuple(x[1]) == PEER, fd.lineno)
-    L.floor("C05.R1", "receive-path scenarios folded", n, 10)
+    # 'for EVERY control datagram ... exactly one reply', with status and effects of the command: a datagram that repeats
+    # the previous one is a command like any other (the handler decides again - POWERON of a running transceiver is refused
+    # the second time), and every reply goes to the sender of ITS datagram.  One interface object, three datagrams.
+    seq = [(b"CMD POWERON\0", ("10.0.0.1", 5555), 0, b"RSP POWERON 0\0"),
+           (b"CMD POWERON\0", ("10.0.0.1", 5555), -1, b"RSP POWERON -1\0"),
+           (b"CMD POWERON\0", ("10.0.0.2", 6666), 0, b"RSP POWERON 0\0")]
+    cur = [0]
+    sent, handled = [], []
+    e = Ev(repo, ci.mod, env=dict(env0), self_cls=ci)
+    e.ignore_calls = ("log.", "logging.")
+
+    def parse2(args):
+        handled.append(cur[0])
+        return seq[cur[0]][2]
+    e.hooks = {"self.sock.recvfrom": lambda a: (seq[cur[0]][0], seq[cur[0]][1]), "self.parse_cmd": parse2,
+               "self.sock.sendto": lambda a: sent.append((cur[0],) + tuple(a)), "time.sleep": lambda a: None,
+               "self.desc_link": lambda a: "L:0.0.0.0:5701 -> R:10.0.0.9:5555"}
+    try:
+        for i in range(len(seq)):
+            cur[0] = i
+            e.run_block(fd.body)
+    except Unknown:
+        return True         # (the single-datagram scenarios folded; the sequence adds nothing when it does not)
+    except Raised as ex:
+        L.ob("C05.R1", FC, fn, "three POWERON datagrams in a row on one interface: each is handled", "no exception", "raises %s" % ex.cls, False, fd.lineno)
+        return True
+    norm = lambda x: bytes(x) if isinstance(x, (bytes, bytearray)) else (x.encode() if isinstance(x, str) else x)
+    got = [(i, norm(d), tuple(peer) if isinstance(peer, (tuple, list)) else peer) for (i, d, peer) in [t[:3] for t in sent if len(t) >= 3]]
+    want = [(i, rsp, peer) for i, (_d, peer, _rc, rsp) in enumerate(seq)]
+    L.require("C05.R1", FC, fn, "three identical POWERON datagrams in a row (second one refused by the handler, third from another peer): "
+              "each is handed to the command handler and answered once, with its own status, to its own sender", (list(range(len(seq))), want), (handled, got), line=fd.lineno)
     return True
 
 
